@@ -412,3 +412,8 @@ def run(rep, program: Program, tier: str) -> None:
     # "otherwise it raises a convergence error": value and linear-algebra errors inside the projection solvers'
     # iterations are converted, none escapes as a foreign exception (shared with C12-R3)
     rep.isolate(c12.rule_r3, rep, program, et, prop=PROP, rule="R9", only_projection=True)
+    # the solvers' update `mom -= dh2_flow_dmom-block @ multipliers` is the Lagrange-multiplier form of the constrained step
+    # only if dh2_flow_dmom is the derivative of the flow actually applied (shared with C07-R3)
+    from . import c07
+
+    rep.isolate(c07.rule_r3, rep, program, prop=PROP, rule="R10")
